@@ -205,31 +205,52 @@ theorem traceInv_cb (s t : State) (q : CbStep s t) (h : TraceInv s) : TraceInv t
 
 /-! ### the initial state -/
 
-theorem init_chans_poll (c : Nat) :
-    ((init .poll).chans c).events = initEvents c ∧ ((init .poll).chans c).added = initAdded c ∧
-      (init .poll).dead = false := by
-  simp [init, applyOp, empty, updateChannel, setInterest, pollUpdate, report, emit, pollIsNew, newEvents,
-    enableReading, timerChan, wakeChan, fdOf, kReadEvent, initEvents, initAdded]
-  by_cases h1 : c = 1
-  · simp [h1]
-  · by_cases h0 : c = 0 <;> simp [h1, h0]
+theorem init_alive (be : Backend) :
+    (applyOp (empty be) timerChan .enableR).dead = false ∧
+      (applyOp (applyOp (empty be) timerChan .enableR) wakeChan .enableR).dead = false := by
+  cases be with
+  | epoll =>
+    have h1 := epStruct_applyOp (s := empty .epoll) rfl epStruct_empty timerChan .enableR
+    have h2 := epStruct_applyOp (s := applyOp (empty .epoll) timerChan .enableR)
+      ((applyOp_be _ _ _).trans rfl) h1.1 wakeChan .enableR
+    exact ⟨h1.2.1, h2.2.1.trans h1.2.1⟩
+  | poll =>
+    have h1 := pollStruct_applyOp (s := empty .poll) rfl pollStruct_empty timerChan .enableR
+    have h2 := pollStruct_applyOp (s := applyOp (empty .poll) timerChan .enableR)
+      ((applyOp_be _ _ _).trans rfl) h1.1 wakeChan .enableR
+    exact ⟨h1.2.1, h2.2.1.trans h1.2.1⟩
 
-theorem init_chans_epoll (c : Nat) :
-    ((init .epoll).chans c).events = initEvents c ∧ ((init .epoll).chans c).added = initAdded c ∧
-      (init .epoll).dead = false := by
-  simp [init, applyOp, empty, updateChannel, setInterest, epollUpdate, report, emit, epAddBranch, epIsNew, kNew,
-    newEvents, enableReading, timerChan, wakeChan, fdOf, kReadEvent, ctl, setIndex, setCmap, epCtlAdd, ctlADD,
-    epIndexAfterAdd, initEvents, initAdded]
-  by_cases h1 : c = 1
-  · simp [h1]
-  · by_cases h0 : c = 0 <;> simp [h1, h0]
-
+/-- the state after `EventLoop`'s constructor, whatever the back-end -/
 theorem init_chans (be : Backend) (c : Nat) :
     ((init be).chans c).events = initEvents c ∧ ((init be).chans c).added = initAdded c ∧
-      (init be).dead = false := by
-  cases be
-  · exact init_chans_epoll c
-  · exact init_chans_poll c
+      (init be).dead = false ∧ ((init be).chans c).revents = 0 := by
+  obtain ⟨d1, d2⟩ := init_alive be
+  have o1 := applyOp_opStep (s := empty be) rfl (c := timerChan) (k := .enableR) trivial
+  have o2 := applyOp_opStep (s := applyOp (empty be) timerChan .enableR) d1 (c := wakeChan) (k := .enableR) trivial
+  refine ⟨?_, ?_, d2, ?_⟩
+  · show ((applyOp (applyOp (empty be) timerChan .enableR) wakeChan .enableR).chans c).events = _
+    rw [o2.ev c, o1.ev c, o1.ev wakeChan]
+    unfold initEvents
+    by_cases h1 : c = wakeChan
+    · subst h1; simp [empty, opEvents, newEvents, enableReading, wakeChan, timerChan]
+    · by_cases h0 : c = timerChan
+      · subst h0; simp [empty, opEvents, newEvents, enableReading, wakeChan, timerChan]
+      · simp [h1, h0, empty]
+  · show ((applyOp (applyOp (empty be) timerChan .enableR) wakeChan .enableR).chans c).added = _
+    rw [o2.added c, o1.added c]
+    unfold initAdded
+    by_cases h1 : c = wakeChan
+    · simp [h1, opAdded]
+    · by_cases h0 : c = timerChan
+      · simp [h0, opAdded]
+      · simp [h1, h0, empty]
+  · show ((applyOp (applyOp (empty be) timerChan .enableR) wakeChan .enableR).chans c).revents = _
+    rw [o2.rev c, o1.rev c, o1.rev wakeChan]
+    by_cases h1 : c = wakeChan
+    · subst h1; simp [empty, opRevents, wakeChan, timerChan]
+    · by_cases h0 : c = timerChan
+      · subst h0; simp [empty, opRevents, wakeChan, timerChan]
+      · simp [h1, h0, empty]
 
 theorem init_out (be : Backend) : (init be).out = [] := rfl
 
@@ -373,7 +394,7 @@ theorem noCtlFail_frame (s t : State) (f : Frame s t) (h : NoCtlFail s) : NoCtlF
 
 theorem noCtlFail_cb (s t : State) (q : CbStep s t) (h : NoCtlFail s) : NoCtlFail t := by
   obtain ⟨c, k, _, _, _, rfl⟩ := q
-  exact ⟨fun hb => (h.1 hb).congr rfl rfl rfl (fun _ => rfl) (fun _ => rfl) (fun _ => rfl),
+  exact ⟨fun hb => (h.1 hb).congr rfl rfl (fun _ => rfl) (fun _ => rfl) (fun _ => rfl),
     noCtlFail_append h.2 (l := [_]) rfl (by simp [Ev.isCtlFailure])⟩
 
 theorem noCtlFail_run (be : Backend) (ins : List In) : NoCtlFail (run (init be) ins) := by
